@@ -38,11 +38,24 @@ their output is judged by the specification alone (`spec.mcs`: the returned mapp
 selected labels, bonds and orders both ways) plus "the two directions are mutually inverse".  `session-components`
 mixes gated component-level and ordinary queries on ONE matcher over a pool of molecule sets.
 
+ROUTE streams (`routes`, `routes-entry`, `session-routes`; field "call" of a case, see `call_route`): the same queries put
+through the other documented spellings of the public API - `find_rc_mapping` with side 'r' / 'l' / 'op' on ITS graphs (the
+harness builds each ITS graph from two KNOWN side graphs, so the expected answer is the Lean model on the known sides and
+`its_decompose` is part of the implementation side), side 'its' (graphs as they are), any letter case of the side string,
+keyword arguments left at their documented defaults (`mcs`, `mcs_mol`, `component`, `side`), `allow_shift`, positional
+constructor arguments, graphs handed over as read-only sub-graph views of larger graphs.  With component=False and
+mcs_mol=False these are ordinary queries: judged against the model in every mode; otherwise component-level: judged by the
+specification.  Every record of the main variant also carries the public read accessors: `mapping_direction` (compared with
+the model's orientation flag; 'unknown' before a search), and `mappings` / `get_mappings()` / iteration / `num_mappings`
+must agree with `get_mappings('pattern_to_host')`.
+
 When implementation and model differ, `spec.mcs` decides whether the property itself is violated
 on the implementation's output (then the input is shrunk and reported), otherwise the broken
 correspondence is reported without input.
 """
+import contextlib
 import copy
+import io
 import itertools
 import json
 
@@ -92,8 +105,10 @@ def modes_of(case, modes_main=None, modes_mtg=None):
     return (modes_mtg or MODES_MTG) if case.get("variant", "main") == "mtg" else (modes_main or MODES_MAIN)
 
 
-def call_entry(m, G1, G2, entry, mcs, mtg):
+def call_entry(m, G1, G2, entry, mcs, mtg, call=None):
     """The public call of one component-level entry point; returns what the call returned."""
+    if call:
+        return call_route(m, G1, G2, call, mcs, mtg, entry)
     if entry == "mcs_mol":
         return m.find_common_subgraph(G1, G2, mcs=mcs, mcs_mol=True)
     if entry == "rc_mol" and not mtg:
@@ -118,9 +133,27 @@ def read_record(m, mtg, fresh=None):
            "g1_to_g2": graphio_list(m.get_mappings("G1_to_G2")),
            "g2_to_g1": graphio_list(m.get_mappings("G2_to_G1")),
            "other_direction": other, "fresh": fresh}
-    if graphio_list(m.mappings) != out["pattern_to_host"]:
+    return finish_record(m, out)
+
+
+def finish_record(m, out):
+    """Main variant: the other documented read accessors of the cache.  `mappings`, `get_mappings()` without a direction and
+    iteration are documented as the pattern->host list, `num_mappings` as its length; `mapping_direction` (the PUBLIC name
+    of the orientation: which input graph acted as pattern) goes into the record and is compared with the model's flag."""
+    p2h = out["pattern_to_host"]
+    if graphio_list(m.mappings) != p2h:
         return {"exception": "mappings property differs from get_mappings('pattern_to_host')"}
+    if graphio_list(m.get_mappings()) != p2h:
+        return {"exception": "get_mappings() without a direction differs from get_mappings('pattern_to_host')"}
+    if graphio_list(list(iter(m))) != p2h:
+        return {"exception": "iterating the matcher does not give the pattern_to_host mappings"}
+    if m.num_mappings != len(p2h):
+        return {"exception": f"num_mappings={m.num_mappings!r} but {len(p2h)} mappings are stored"}
+    out["mapping_direction"] = m.mapping_direction
     return out
+
+
+DIRECTION_NAME = {True: "G1_to_G2", False: "G2_to_G1", None: "unknown"}
 
 
 def impl_run_entry(case, mcs, prune):
@@ -145,6 +178,147 @@ def impl_run_entry(case, mcs, prune):
     return out
 
 
+# ---------------------------------------------------------------- other public routes to the same search
+# A case with the field "call" puts its query through another documented route / spelling of the public API.  The pair the
+# MODEL sees is still (g1, g2); "call" only says how the real matcher is asked:
+#   "route": "find" -> find_common_subgraph(A1, A2, ...);  "rc" -> find_rc_mapping(A1, A2, ...)
+#   "side":  (route rc) "its" = the two graphs are passed as they are; "r" / "l" / "op" = each graph is passed as an ITS graph
+#            (node attribute typesGH = (left tuple, right tuple), edge attribute order = (left order, right order)) whose
+#            selected side IS g1 resp. g2 and whose other side is "other1" resp. "other2": r -> right/right, l -> left/left,
+#            op -> right of the first / left of the second (the MTG class has only this one).  The side string is passed as
+#            written (documented as case-insensitive); a string outside the four is entry "rc_bad_side" (documented ValueError).
+#   "omit_defaults": every keyword argument whose value is the documented default of the route is left out
+#            (find_common_subgraph: mcs=False, mcs_mol=False; main find_rc_mapping: side="op", mcs=True, mcs_mol=False,
+#            component=True; MTG find_rc_mapping: mcs=False, mcs_mol=False)
+#   "allow_shift": constructor argument documented as unused;  "positional": the leading constructor arguments by position
+#   "view": [[which, new id, attrs, anchor id, edge attrs] ...] -> graph `which` is handed over as a read-only sub-graph view
+#            of a larger graph (the extra atoms hang on the anchors and are outside the view)
+# Without "entry" the query is an ordinary one (component=False, mcs_mol=False) and is judged against the Lean model in every
+# mode; with "entry" (rc_component / rc_mol / mcs_mol) it is a component-level query judged by the specification.
+SIDES = ("its", "r", "l", "op")
+
+
+def its_nx(sel, other, sel_left):
+    """The ITS graph whose `sel_left ? left : right` side is the graph JSON `sel` (restricted to what its_decompose keeps:
+    element, aromatic, hcount, charge per atom, atom_map = node id, one numeric order per bond) and whose opposite side is
+    `other` restricted to the atoms of `sel`."""
+    import networkx as nx
+
+    def tup(a):
+        d = {k: graphio.unval(v) for k, v in a.items()}
+        return (d.get("element"), d.get("aromatic"), d.get("hcount"), d.get("charge"), [])
+
+    G = nx.Graph()
+    onodes = {n[0]: n[1] for n in other["nodes"]}
+    for i, a in sel["nodes"]:
+        t_s, t_o = tup(a), tup(onodes.get(i, a))
+        G.add_node(i, element=t_s[0], aromatic=t_s[1], hcount=t_s[2], charge=t_s[3], atom_map=i,
+                   typesGH=(t_s, t_o) if sel_left else (t_o, t_s))
+    ids = set(G.nodes)
+    pairs, o_s, o_o = [], {}, {}
+    for tab, g in ((o_s, sel), (o_o, other)):
+        for u, v, a in g["edges"]:
+            if u in ids and v in ids and "order" in a:
+                k = (min(u, v), max(u, v))
+                tab[k] = graphio.unval(a["order"])
+                if k not in pairs:
+                    pairs.append(k)
+    for k in pairs:
+        x, y = o_s.get(k, 0), o_o.get(k, 0)
+        lo, ro = (x, y) if sel_left else (y, x)
+        G.add_edge(k[0], k[1], order=(lo, ro), standard_order=lo - ro)
+    return G
+
+
+def snapshot(G):
+    return ([(n, repr(sorted(d.items()))) for n, d in G.nodes(data=True)],
+            [(u, v, repr(sorted(d.items()))) for u, v, d in G.edges(data=True)])
+
+
+def deliver(case):
+    """-> the two objects handed to the matcher for a case with a "call" field."""
+    call = case["call"]
+    side = str(call.get("side", "its")).lower()
+    if call.get("route") == "rc" and side != "its":
+        return (its_nx(case["g1"], call["other1"], side == "l"),
+                its_nx(case["g2"], call["other2"], side in ("l", "op")))
+    out = []
+    for which, key in ((1, "g1"), (2, "g2")):
+        G = graphio.to_nx(case[key])
+        halo = [h for h in call.get("view") or [] if h[0] == which]
+        if halo:
+            inner = list(G.nodes)
+            for _, new, at, anchor, eat in halo:
+                if new in G:
+                    continue
+                G.add_node(new, **{k: graphio.unval(v) for k, v in at.items()})
+                if anchor in inner:
+                    G.add_edge(anchor, new, **{k: graphio.unval(v) for k, v in eat.items()})
+            G = G.subgraph(inner)
+        out.append(G)
+    return out[0], out[1]
+
+
+def call_route(m, A1, A2, call, mcs, mtg, entry=None):
+    omit = bool(call.get("omit_defaults"))
+    kw = {}
+    if call.get("route") == "rc":
+        if mtg:
+            if not (omit and not mcs):
+                kw["mcs"] = mcs
+            if entry == "mcs_mol" or not omit:
+                kw["mcs_mol"] = entry == "mcs_mol"
+            return m.find_rc_mapping(A1, A2, **kw)
+        side = call.get("side", "op")
+        if not (omit and side == "op"):
+            kw["side"] = side
+        if not (omit and mcs):
+            kw["mcs"] = mcs
+        if entry == "rc_mol" or not omit:
+            kw["mcs_mol"] = entry == "rc_mol"
+        if not (omit and entry == "rc_component"):
+            kw["component"] = entry == "rc_component"
+        return m.find_rc_mapping(A1, A2, **kw)
+    if not (omit and not mcs):
+        kw["mcs"] = mcs
+    if entry == "mcs_mol" or not omit:
+        kw["mcs_mol"] = entry == "mcs_mol"
+    return m.find_common_subgraph(A1, A2, **kw)
+
+
+def impl_run_call(case, mcs, prune):
+    """One query through the route described by case["call"] on a fresh matcher -> record as `impl_run`."""
+    call = case["call"]
+    mtg = case.get("variant", "main") == "mtg"
+    entry = case.get("entry")
+    try:
+        A1, A2 = deliver(case)
+        before = (snapshot(A1), snapshot(A2))
+        try:
+            m = _make_matcher(case, prune)
+        except ValueError:
+            return "ValueError"
+        fresh = graphio_list(m.get_mappings() if mtg else m.get_mappings("host_to_pattern"))
+        fresh_dir = None if mtg else m.mapping_direction
+        if entry == "rc_bad_side":
+            try:
+                call_route(m, A1, A2, call, mcs, mtg, None)
+            except ValueError:
+                return "ValueError:side"
+            return {"exception": f"side={call.get('side')!r} accepted (documented: ValueError)"}
+        ret = call_route(m, A1, A2, call, mcs, mtg, entry)
+        if not mtg and ret is not m:
+            return {"exception": "the search call did not return self"}
+        out = read_record(m, mtg, fresh)
+        if fresh_dir is not None and "exception" not in out:
+            out["fresh_direction"] = fresh_dir
+    except Exception as e:
+        return {"exception": type(e).__name__ + ": " + str(e)[:200]}
+    if "exception" not in out and (snapshot(A1), snapshot(A2)) != before:
+        return {"exception": "input graph mutated"}
+    return out
+
+
 def inv_pairs(m):
     return sorted([h, p] for p, h in m)
 
@@ -161,6 +335,11 @@ def entry_diffs(im):
         d.append("no orientation recorded after a search")
     elif im["pattern_to_host"] != (im["g1_to_g2"] if im["pattern_is_g1"] else im["g2_to_g1"]):
         d.append("pattern_to_host is not the direction named by the orientation flag")
+    md = im.get("mapping_direction")
+    if md is not None and im["pattern_to_host"] != {"G1_to_G2": im["g1_to_g2"], "G2_to_G1": im["g2_to_g1"]}.get(md):
+        d.append(f"pattern_to_host is not the direction named by mapping_direction={md!r}")
+    if im.get("fresh_direction") not in (None, "unknown"):
+        d.append(f"mapping_direction of a matcher that has not searched: {im['fresh_direction']!r} (documented: 'unknown')")
     return d
 
 
@@ -179,6 +358,8 @@ def entry_verdict(im, spec):
 
 
 def judge_one(case, mcs, prune, im, model, spec):
+    if case.get("entry") == "rc_bad_side":
+        return ([] if im == "ValueError:side" else [f"find_rc_mapping with an unknown side: {str(im)[:200]} (documented: ValueError)"]), []
     if case.get("entry"):
         return entry_diffs(im), entry_verdict(im, spec)
     return structural_diffs(im, model, model, mcs, prune), spec_verdict(im, spec, mcs)
@@ -186,6 +367,8 @@ def judge_one(case, mcs, prune, im, model, spec):
 
 def impl_run(case, mcs, prune):
     """Run the real matcher; returns the same record as the driver's `mcs.find`."""
+    if case.get("call"):
+        return impl_run_call(case, mcs, prune)
     if case.get("entry"):
         return impl_run_entry(case, mcs, prune)
     G1 = graphio.to_nx(case["g1"])
@@ -230,11 +413,10 @@ def impl_run(case, mcs, prune):
                    "g1_to_g2": graphio_list(m.get_mappings("G1_to_G2")),
                    "g2_to_g1": graphio_list(m.get_mappings("G2_to_G1")),
                    "other_direction": other, "fresh": fresh}
-            if graphio_list(m.mappings) != out["pattern_to_host"]:
-                return {"exception": "mappings property differs from get_mappings('pattern_to_host')"}
+            out = finish_record(m, out)
     except Exception as e:  # a crash of the implementation is an observable, not an infrastructure failure
         return {"exception": type(e).__name__ + ": " + str(e)[:200]}
-    if graphio.graph(G1) != graphio.graph(G1c) or graphio.graph(G2) != graphio.graph(G2c):
+    if "exception" not in out and (graphio.graph(G1) != graphio.graph(G1c) or graphio.graph(G2) != graphio.graph(G2c)):
         return {"exception": "input graph mutated"}
     return out
 
@@ -279,6 +461,10 @@ def structural_diffs(impl, model, model_unpruned, mcs, prune):
     for k in ("pattern_is_g1", "last_size", "fresh"):
         if impl[k] != model[k]:
             d.append(f"{k}: impl={impl[k]!r} model={model[k]!r}")
+    if "mapping_direction" in impl and impl["mapping_direction"] != DIRECTION_NAME.get(model["pattern_is_g1"]):
+        d.append(f"mapping_direction: impl={impl['mapping_direction']!r} model={DIRECTION_NAME.get(model['pattern_is_g1'])!r}")
+    if impl.get("fresh_direction") not in (None, "unknown"):
+        d.append(f"mapping_direction of a matcher that has not searched: {impl['fresh_direction']!r} (documented: 'unknown')")
     if impl["other_direction"] is not None and (isinstance(impl["other_direction"], str) or isinstance(model["other_direction"], str)):
         if impl["other_direction"] != model["other_direction"]:
             d.append(f"unsupported direction string: impl={str(impl['other_direction'])[:80]} model={str(model['other_direction'])[:80]}")
@@ -1248,19 +1434,26 @@ def _fill(G, j):
 
 def _make_matcher(sess, prune):
     nk, nd, ek = sess.get("node_keys"), _unval_opt(sess.get("node_defaults")), sess.get("edge_keys")
+    call = sess.get("call") or {}
+    kw = {}
+    if call.get("allow_shift") is not None:
+        kw["allow_shift"] = bool(call["allow_shift"])
     if sess.get("variant", "main") == "mtg":
         from synkit.Graph.MTG.mcs_matcher import MCSMatcher as M
 
-        kw = {}
+        if call.get("positional"):
+            return M(nk, nd, *([ek[0]] if ek is not None else ["order"]), *([kw["allow_shift"]] if kw else []))
         if ek is not None:
             kw["edge_attribute"] = ek[0]
         return M(node_label_names=nk, node_label_defaults=nd, **kw)
     from synkit.Graph.Matcher.mcs_matcher import MCSMatcher as M
 
-    kw = {}
     wc = sess.get("prune_wc")
     if wc is not None:
         kw.update(prune_wc=True, element_key=wc[0], wildcard_element=graphio.unval(wc[1]))
+    if call.get("positional"):
+        shift = [kw.pop("allow_shift")] if "allow_shift" in kw else []
+        return M(nk, nd, *shift, edge_attrs=ek, prune_automorphisms=prune, **kw)
     return M(node_attrs=nk, node_defaults=nd, edge_attrs=ek, prune_automorphisms=prune, **kw)
 
 
@@ -1313,6 +1506,9 @@ def session_run(sess):
                     m.find_rc_mapping(objs[st["a"]], objs[st["b"]], side="its", mcs=bool(st.get("mcs", True)), component=False)
                 elif st["kind"] == "read":
                     m.get_mappings()
+                    repr(m), str(m)  # the remaining public reads: text forms, help (the MTG one prints)
+                    with contextlib.redirect_stdout(io.StringIO()):
+                        m.help() if mtg else m.help
             except Exception:
                 pass  # out of scope; only its after-effects on later gated queries matter
         elif op == "find":
@@ -1326,7 +1522,15 @@ def session_run(sess):
             try:
                 fresh = graphio_list(m.get_mappings() if mtg else m.get_mappings("host_to_pattern")) if virgin else []
                 virgin = False
-                ret = call_entry(m, G1, G2, entry, mcs, mtg) if entry else m.find_common_subgraph(G1, G2, mcs=mcs)
+                route = st.get("route")  # an ordinary query put through another spelling of the public API
+                if entry:
+                    ret = call_entry(m, G1, G2, entry, mcs, mtg)
+                elif route == "rc_its" and not mtg:
+                    ret = m.find_rc_mapping(G1, G2, side=st.get("side", "its"), mcs=mcs, component=False)
+                elif route == "find_default" and not mcs:
+                    ret = m.find_common_subgraph(G1, G2)
+                else:
+                    ret = m.find_common_subgraph(G1, G2, mcs=mcs)
                 # reads in between, in any order; the caller may do what it likes with the COPIES it was given
                 for d, mutate in st.get("peek", []):
                     if mtg:
@@ -1357,8 +1561,7 @@ def session_run(sess):
                           "g1_to_g2": graphio_list(m.get_mappings("G1_to_G2")),
                           "g2_to_g1": graphio_list(m.get_mappings("G2_to_G1")),
                           "other_direction": other, "fresh": fresh}
-                    if graphio_list(m.mappings) != im["pattern_to_host"]:
-                        im = {"exception": "mappings property differs from get_mappings('pattern_to_host')"}
+                    im = finish_record(m, im)
                 if "exception" not in im and held is not None and graphio_list(held[0]) != held[1]:
                     im = {"exception": "the mappings handed out for the previous query changed when this query ran"}
                 if "exception" not in im:
@@ -1596,6 +1799,192 @@ def tiny_sessions(rnd, classes, pairs, group, variant_p_mtg=0.2):
     return out
 
 
+# ---------------------------------------------------------------- generators of the route streams
+RC_NODE_KEYS = ["element", "charge", "hcount", "aromatic"]
+RC_STD_DEFAULT = {"element": "*", "charge": 0, "hcount": 0, "aromatic": "*", "atom_map": 0}
+BAD_SIDES = ["x", "", "both", "its ", "rl", "left"]
+
+
+def rc_pair(rnd, variant):
+    """A pair of graphs of exactly the shape an ITS side has after decomposition (every atom: element, aromatic (bool), hcount,
+    charge, atom_map = its node id; every bond: one numeric order), with an option set over those attributes.
+    -> (node list, edge list) x 2, cfg"""
+    kind = rnd.choice(["planted", "planted", "copy", "copy", "symmetric", "disconnected", "random"])
+    a, b = base_pair(rnd, kind, rnd.randint(2, 5), rnd.randint(2, 6))
+    tab = {}
+    for g in (a, b):
+        for i, at in g[0].items():
+            if i not in tab:
+                tab[i] = (rnd.choice([0, 0, 1, 2, 3]), rnd.random() < 0.3)
+            h, ar = tab[i] if rnd.random() < 0.9 else (rnd.choice([0, 1, 2]), rnd.random() < 0.5)
+            at.update(hcount=h, aromatic=ar)
+            at.setdefault("charge", 0)
+            if rnd.random() < 0.06:
+                at["element"] = "*"
+        for at in g[1].values():
+            at.pop("standard_order", None)
+    if rnd.random() < 0.35 and len(a[0]) < len(b[0]):
+        a, b = b, a
+    same = rnd.random() < 0.3
+    if same:  # one atom numbering for both graphs (the atom maps of one reaction): ids shared by the raw pair stay shared
+        ids = sorted(set(a[0]) | set(b[0]))
+        f = dict(zip(ids, rnd.sample(range(1, 3 * len(ids) + 3), len(ids))))
+
+        def rl(g):
+            order = list(g[0])
+            rnd.shuffle(order)
+            ns = [(f[i], dict(g[0][i])) for i in order]
+            es = [(f[u], f[v], dict(at)) for (u, v), at in g[1].items()]
+            rnd.shuffle(es)
+            return ns, [(v, u, at) if rnd.random() < 0.5 else (u, v, at) for u, v, at in es]
+        (na, ea), (nb, eb) = rl(a), rl(b)
+    else:
+        na, ea, nb, eb = finish_pair(rnd, a, b, variant, None, swap_p=0.0)
+    for ns in (na, nb):
+        for i, at in ns:
+            at["atom_map"] = i
+    keys = RC_NODE_KEYS + (["atom_map"] if same or rnd.random() < 0.1 else [])
+    if rnd.random() < 0.15:
+        nk, nd = None, None
+    else:
+        nk = rnd.sample(keys, rnd.choice([1, 1, 2, 2, 3]))
+        if same and "atom_map" not in nk and rnd.random() < 0.3:
+            nk.append("atom_map")
+        nd = None if rnd.random() < 0.4 else [V(RC_STD_DEFAULT[k]) for k in nk]
+    if variant == "mtg":
+        ek = rnd.choice([None, ["order"]])
+    else:
+        ek = rnd.choice([None, ["order"], ["order"], ["order", "standard_order"], []])
+    cfg = dict(node_keys=nk, node_defaults=nd, edge_keys=ek)
+    if variant == "main" and rnd.random() < 0.25:
+        cfg["prune_wc"] = ["element", V("*")]
+    return (na, ea), (nb, eb), cfg, same
+
+
+def other_side(rnd, ns, es):
+    """The opposite side of an ITS graph: the same atoms, 0..3 edits (bond order changed / bond broken / bond formed /
+    charge or hydrogen count changed)."""
+    ns = [(i, dict(a)) for i, a in ns]
+    es = [(u, v, dict(a)) for u, v, a in es]
+    for _ in range(rnd.choice([0, 1, 1, 2, 2, 3, 3])):
+        r = rnd.random()
+        if r < 0.3 and es:
+            e = rnd.choice(es)
+            e[2]["order"] = rnd.choice([o for o in [1.0, 2.0, 1.5, 3.0] if o != e[2].get("order")])
+        elif r < 0.5 and es:
+            es.remove(rnd.choice(es))
+        elif r < 0.75 and len(ns) >= 2:
+            u, v = rnd.sample([i for i, _ in ns], 2)
+            if not any({u, v} == {x, y} for x, y, _ in es):
+                es.append((u, v, {"order": rnd.choice([1.0, 1.0, 2.0])}))
+        else:
+            at = rnd.choice(ns)[1]
+            k = rnd.choice(["charge", "hcount", "element", "element"])
+            at[k] = {"charge": rnd.choice([-1, 0, 1]), "hcount": rnd.choice([0, 1, 2]), "element": rnd.choice(["C", "N", "O"])}[k]
+    return mk_graph(ns, es)
+
+
+def halo_of(rnd, case):
+    """Extra atoms for the `view` delivery: copies of atoms of the graph hung on one of its atoms with a copy of one of its
+    bonds - if the matcher looked past the view they would extend the common part."""
+    out = []
+    new = 900
+    for which, key in ((1, "g1"), (2, "g2")):
+        g = case[key]
+        if not g["nodes"] or rnd.random() < 0.3:
+            continue
+        for _ in range(rnd.randint(1, 2)):
+            anchor = rnd.choice(g["nodes"])[0]
+            at = copy.deepcopy(rnd.choice(g["nodes"])[1])
+            eat = copy.deepcopy(rnd.choice(g["edges"])[2]) if g["edges"] else graphio.attrs({"order": 1.0})
+            out.append([which, new, at, anchor, eat])
+            new += 1
+    return out
+
+
+def route_case(rnd, variant, plain=None, entry=False, bad_side=False):
+    """One case of the route streams.  `plain` = a ready pair from the other generators (then only the routes that take the
+    graphs as they are); otherwise a pair of ITS-side shaped graphs, which can also travel inside ITS graphs."""
+    mtg = variant == "mtg"
+    if plain is not None:
+        case = dict(plain)
+        sides = ["its"]
+    else:
+        (na, ea), (nb, eb), cfg, _same = rc_pair(rnd, variant)
+        case = {"g1": mk_graph(na, ea), "g2": mk_graph(nb, eb), "variant": variant, **cfg}
+        sides = ["its", "r", "r", "l", "l", "op", "op"]
+    call = {}
+    if bad_side:
+        call.update(route="rc", side=rnd.choice(BAD_SIDES))
+    elif mtg:
+        call["route"] = "find" if plain is not None or rnd.random() < 0.35 else "rc"
+        if call["route"] == "rc":
+            call["side"] = "op"  # the MTG class has no side argument: always right of the first against left of the second
+    else:
+        call["route"] = "find" if rnd.random() < 0.25 else "rc"
+        if call["route"] == "rc":
+            side = rnd.choice(sides)
+            if rnd.random() < 0.25:
+                side = rnd.choice([side.upper(), side.capitalize()])
+            call["side"] = side
+    if call["route"] == "rc" and call["side"].lower() != "its":
+        call["other1"] = other_side(rnd, na, ea)
+        call["other2"] = other_side(rnd, nb, eb)
+    elif rnd.random() < 0.4:
+        call["view"] = halo_of(rnd, case)
+    call["omit_defaults"] = rnd.random() < 0.45
+    if rnd.random() < 0.3:
+        call["allow_shift"] = rnd.random() < 0.35
+    if rnd.random() < 0.2:
+        call["positional"] = True
+    case["call"] = call
+    if bad_side:
+        case.update(entry="rc_bad_side", entry_mcs=rnd.random() < 0.5, entry_prune=False)
+    elif entry:
+        if call["route"] == "find" or mtg:
+            e = "mcs_mol"
+        else:
+            e = rnd.choice(["rc_component", "rc_component", "rc_mol"])
+        case.update(entry=e, entry_mcs=rnd.random() < 0.6, entry_prune=(not mtg) and rnd.random() < 0.3)
+        if not mtg and plain is None and rnd.random() < 0.15:  # the call with every argument left at its default
+            call.update(route="rc", side="op", omit_defaults=True, other1=other_side(rnd, na, ea), other2=other_side(rnd, nb, eb))
+            call.pop("view", None)
+            case.update(entry="rc_component", entry_mcs=True)
+    return case
+
+
+def route_counts(ctx, case):
+    call = case["call"]
+    side = str(call.get("side", "-"))
+    ctx.count(f"route_case:{case.get('variant', 'main')}/{call['route']}/{side.lower()}" + ("/" + case["entry"] if case.get("entry") else ""))
+    if side not in ("-", side.lower()):
+        ctx.count("route_side_spelling:not-lower-case")
+    for k in ("omit_defaults", "positional", "view"):
+        if call.get(k):
+            ctx.count("route_" + k)
+    if call.get("allow_shift") is not None:
+        ctx.count(f"route_allow_shift:{call['allow_shift']}")
+    if (call["route"] == "rc" and call.get("omit_defaults") and case.get("entry") == "rc_component" and side == "op"
+            and case.get("entry_mcs")):
+        ctx.count("route_all_defaults:find_rc_mapping(rc1, rc2)")
+
+
+def route_sessions(rnd, base, nsteps):
+    """A random session in which half of the ordinary queries take another spelling of the public API (main:
+    find_rc_mapping(side='its', component=False); both: find_common_subgraph without the mcs keyword)."""
+    sess = rand_session(rnd, base, nsteps)
+    mtg = sess.get("variant", "main") == "mtg"
+    for st in sess["steps"]:
+        if st["op"] == "find" and not st.get("entry") and rnd.random() < 0.6:
+            if mtg or rnd.random() < 0.3:
+                st["route"] = "find_default"
+                st["mcs"] = st["mcs"] and rnd.random() < 0.3  # the spelling exists for mcs=False only
+            else:
+                st["route"] = "rc_its"
+                st["side"] = rnd.choice(["its", "its", "ITS", "Its"])
+    return sess
+
+
 def load_regress():
     d = ROOT / "regress" / "C12"
     out = []
@@ -1616,14 +2005,19 @@ def run(ctx):
         "Driver/Mcs.lean JSON codec, harness/props/c12.py adapter and canonicalisation (each mapping sorted by key, mapping sets sorted)",
         "not modelled in Lean (no search model, hence no maximality / completeness claim): mcs_mol=True (_find_mcs_mol), "
         "find_rc_mapping(side='its'), _componentwise_mcs; their outputs are judged by the Lean specification spec.mcs "
-        "(IsCommonInduced of every returned mapping) and by the inverse-directions gate only; find_rc_mapping with its_decompose "
-        "(sides r / l / op) is out of scope",
+        "(IsCommonInduced of every returned mapping) and by the inverse-directions gate only",
+        "find_rc_mapping with sides r / l / op: the ITS graphs are assembled by the harness (its_nx) from two known side graphs; the "
+        "expectation is the model / specification on the known sides, so synkit.Graph.ITS.its_decompose is on the implementation side "
+        "of the comparison (only the shapes it documents: typesGH = (left, right) 5-tuples, order = (left, right) numbers, 0 = no bond)",
     ]
     ctx.assumptions = [
         "selected edge attribute values are numbers (multiples of 1/2), None or tuples of such; selected node attribute values are "
         "strings, numbers or None (no bool/numeric-string values, for which Python's == / float() identify values the model keeps apart)",
         "node ids are non-negative integers; graphs are simple undirected nx.Graph without self-loops",
         "node_attrs / node_label_names is a list (not a bare string)",
+        "route streams: the attribute `aromatic` of a decomposed ITS side is a bool on every atom of both graphs (bool against bool "
+        "only); an unknown side string is expected to raise ValueError as documented (reported as a broken correspondence, not as a "
+        "violation of C12); find_rc_mapping defaults component=True / mcs_mol are component-level modes and promise no maximum",
     ]
     ctx.gen_rule = (
         "regression corpus; malformed stream (empty graphs, single nodes, constructor length mismatch); tiny-exhaustive: ALL ordered pairs "
@@ -1658,7 +2052,20 @@ def run(ctx):
         "pairs, 1/6 random pairs, each as ONE query through mcs_mol (main, MTG) / find_rc_mapping(side='its', mcs_mol=True) / "
         "find_rc_mapping(side='its', component=True) with seeded mcs and prune_automorphisms flags. SESSION-COMPONENTS: 3..6 queries on one "
         "matcher over {pair of molecule sets, a relabelled copy on other ids, a derived object}, 70% component-level entry points, "
-        "30% ordinary finds, same objects again / swapped / other objects, prune switched."
+        "30% ordinary finds, same objects again / swapped / other objects, prune switched. "
+        "ROUTES stream: 2/3 pairs of ITS-side shaped graphs (planted / copy / ring / disconnected / random molecules up to 5x6 atoms, every "
+        "atom with element, aromatic, hcount, charge, atom_map = id, bonds with one numeric order, 6% '*' atoms, 30% one shared atom numbering; "
+        "node keys = 1..3 of {element, charge, hcount, aromatic} (+ atom_map), defaults standard or omitted, edge keys omitted / [order] / "
+        "[order, standard_order] / [], prune_wc in 25%) and 1/3 pairs of the options / rare / random generators; main: 25% "
+        "find_common_subgraph, 75% find_rc_mapping with side its / r / l / op (op twice as likely; a quarter spelled in upper case or "
+        "capitalised), MTG: find_common_subgraph or find_rc_mapping (op); for r / l / op each graph travels inside an ITS graph whose other "
+        "side is the selected side after 0..3 edits (bond order changed, bond broken, bond formed, charge / hcount / element changed); 45% with "
+        "every default-valued keyword left out, 30% with allow_shift given, 20% positional constructor arguments, 40% of the plain deliveries "
+        "as sub-graph views with 1..2 look-alike atoms outside the view; all four modes (main) / both (MTG) against the model. "
+        "ROUTES-ENTRY: the same pairs (1/4 molecule sets up to 8x8) as ONE component-level query: find_rc_mapping(side, component=True) / "
+        "(side, mcs_mol=True, component=False) / find_common_subgraph(mcs_mol=True) (MTG: find_rc_mapping(mcs_mol=True)), 15% as the call with "
+        "every argument defaulted, 1/16 with a side string outside the documented four. SESSION-ROUTES: random sessions in which 60% of the "
+        "ordinary queries are spelled find_rc_mapping(side='its'|'ITS'|'Its', component=False) or find_common_subgraph without mcs."
     )
     ctx.nontrivial_rule = ("(pair, mode) distinct as JSON, run in maximum mode, with mcs size >= 2 and smaller than both graphs, "
                            "or with >= 2 maximum mappings; a session step counts when the matcher object has answered at least one "
@@ -1787,6 +2194,46 @@ def run(ctx):
     csessions = [comp_session(ctx.rnd, "mtg" if ctx.rnd.random() < 0.2 else "main") for _ in range(ncs)]
     if ok:
         ok &= run_sessions(ctx, csessions, "session-components")
+    # ---- other documented routes to the same search: find_rc_mapping on ITS graphs (sides r / l / op through the ITS
+    #      decomposition, side 'its'), keyword defaults left out, constructor spellings, graphs handed over as views
+    nroute = 220 if ctx.quick else 3000
+    rtcases = []
+    for i in range(nroute):
+        variant = "mtg" if ctx.rnd.random() < 0.2 else "main"
+        plain = None
+        if i % 3 == 2:
+            k = (i // 3) % 3
+            plain = (options_case(ctx.rnd, variant) if k == 0 else rare_case(ctx.rnd, variant, RARE_KINDS[(i // 9) % len(RARE_KINDS)])
+                     if k == 1 else rand_case(ctx.rnd, KINDS[(i // 9) % len(KINDS)], variant))
+        c = route_case(ctx.rnd, variant, plain=plain)
+        route_counts(ctx, c)
+        rtcases.append(c)
+    if ok:
+        ok &= run_cases(ctx, rtcases, "routes")
+    nre = 320 if ctx.quick else 4000
+    recases = []
+    for i in range(nre):
+        variant = "mtg" if ctx.rnd.random() < 0.2 else "main"
+        plain = comp_case(ctx.rnd, variant, 8, 8) if i % 4 == 3 else None
+        c = route_case(ctx.rnd, variant, plain=plain, entry=True, bad_side=(variant == "main" and plain is None and i % 16 == 0))
+        route_counts(ctx, c)
+        recases.append(c)
+    if ok:
+        ok &= run_cases(ctx, recases, "routes-entry")
+    nrs = 60 if ctx.quick else 800
+    rsessions = []
+    for i in range(nrs):
+        variant = "mtg" if ctx.rnd.random() < 0.2 else "main"
+        base = rand_case(ctx.rnd, KINDS[i % len(KINDS)], variant) if i % 2 else options_case(ctx.rnd, variant)
+        if len(base["g1"]["nodes"]) > 5 or len(base["g2"]["nodes"]) > 6:
+            base = rand_case(ctx.rnd, "planted", variant)
+        rsessions.append(route_sessions(ctx.rnd, base, ctx.rnd.randint(2, 5)))
+    for sess in rsessions:
+        for st in sess["steps"]:
+            if st.get("route"):
+                ctx.count("session_route:" + st["route"])
+    if ok:
+        ok &= run_sessions(ctx, rsessions, "session-routes")
     ctx.obligation("correspondence: MCSMatcher (both variants, every mode and direction) == model SynKit.Mcs.find; "
                    "spec.mcs holds on every implementation output (component-level entry points included)", not ctx.violations)
 
